@@ -60,6 +60,8 @@ def rand_spec(r, col):
         return {"binWidth": float(r.choice([DAY, 7 * DAY, 3600 * 10 ** 9])), "origin": float(T0 - r.choice([0, DAY // 2]))}
     c = r.random()
     if c < 0.3:
+        if r.random() < 0.3:
+            return {"binWidth": r.choice([1.0, 0.5, 2.0, 0.25])}        # the origin defaults to 0
         return {"binWidth": r.choice([1.0, 0.5, 2.0, 0.25]), "origin": r.choice([0.0, 0.5, -0.25])}
     if c < 0.55:
         lo = r.choice([-2.0, 0.0, 0.5])
@@ -178,6 +180,9 @@ def oracle(p, run, exact):
         if rec["entries"] != float(rec["rows"]):
             fails.append({"clause": "entries equals the number of rows", "feature": rec["key"],
                           "diff": "%r entries for %d rows" % (rec["entries"], rec["rows"])})
+        if rec.get("pickles") is not True:
+            fails.append({"clause": "a histogram made by make_histograms is an ordinary aggregator (it can be pickled)  [C11]",
+                          "feature": rec["key"], "diff": "pickle round trip: %r" % (rec.get("pickles"),)})
         if not rec["unmodified"]:
             fails.append({"clause": "the input dataframe is not modified", "feature": rec["key"], "diff": "df.equals(copy) is False"})
     if fails:
